@@ -1,10 +1,17 @@
 /-
-C16 — the column arithmetic shared by benchtab.Table.ToText and ToCSV (table.go:120-133, 314-325):
-both renderings give logical column `exp` its own group of physical columns after one label
-column; the baseline column has only the centre group, later columns a centre and a delta group.
-The cell STRINGS are produced by the assembler of C14 and are opaque here.
+C16 — model of benchtab.Table.ToText and Table.ToCSV (cmd/benchstat/internal/benchtab/table.go),
+statement by statement, over a common CELLS VIEW of the table: labels, column keys and the cell
+STRINGS (scaled/unscaled centre, range, delta, p-value, warning messages), which are produced by
+benchmath/benchunit (C10, C13, C14) and are opaque data here.
+
+  ToText : View → calls on a texttab.Table (`List Op`, fed to the model of texttab) + footnotes
+  ToCSV  : View → records for encoding/csv + lines for the warnings stream
 -/
+import Model.Tab.TextTab
+import Model.Tab.KeyHeader
+
 namespace Tab.Render
+open Tab.TextTab Tab.KeyHeader
 
 /-- ToText: `startCol` with labelCols = 1, centerCols = 3, deltaCols = 3 -/
 def textStartCol (exp : Nat) : Nat := if exp == 0 then 1 else 1 + 3 + (exp - 1) * (3 + 3)
@@ -15,10 +22,257 @@ def csvStartCol (exp : Nat) : Nat := if exp == 0 then 1 else 1 + 2 + (exp - 1) *
 def textGroupWidth (exp : Nat) : Nat := if exp == 0 then 3 else 6
 def csvGroupWidth (exp : Nat) : Nat := if exp == 0 then 2 else 4
 
-/-- where ToText puts the pieces of the cell of logical column `exp`:
-centre, range (± margin), warnings, delta, p-value, warnings -/
 def textSlots (exp : Nat) : List Nat := (List.range (textGroupWidth exp)).map (textStartCol exp + ·)
-/-- where ToCSV puts them: centre, CI, delta, P (warnings go to the second stream) -/
 def csvSlots (exp : Nat) : List Nat := (List.range (csvGroupWidth exp)).map (csvStartCol exp + ·)
+
+/-! ### the cells view -/
+
+structure Delta where
+  delta : Bytes          -- Comparison.FormatDelta(base, center)
+  p : Bytes              -- Comparison.String()
+  warns : List Bytes     -- Comparison.Warnings
+  deriving Repr, DecidableEq
+
+structure DataCell where
+  centerText : Bytes     -- RowScaler(row).Format(Summary.Center)
+  centerCsv : Bytes      -- fmt.Sprint(Summary.Center)
+  range : Bytes          -- Summary.PctRangeString()
+  warns : List Bytes     -- Sample.Warnings then Summary.Warnings
+  delta : Option Delta   -- present iff Baseline != nil (only looked at for exp > 0)
+  deriving Repr, DecidableEq
+
+structure SumCell where
+  hasSummary : Bool
+  sumText : Bytes        -- benchunit.Scale(Summary, class)
+  sumCsv : Bytes         -- fmt.Sprint(Summary)
+  hasRatio : Bool
+  ratio : Bytes          -- Sprintf("%+.2f%%", (Ratio-1)*100)
+  warns : List Bytes
+  deriving Repr, DecidableEq
+
+structure View where
+  unit : Bytes
+  nfields : Nat                               -- fields of the column projection
+  colKeys : List (List Bytes)                 -- per column: its flattened field values
+  rows : List (Bytes × List (Option DataCell)) -- label, then per column the cell if present
+  summaryLabel : Bytes
+  summary : List (Option SumCell)             -- per column
+  deriving Repr
+
+def View.ncols (v : View) : Nat := v.colKeys.length
+
+/-! ### ToText -/
+
+def barMargin : Bytes := [0x20, 0xE2, 0x94, 0x82, 0x20]   -- " │ "
+def edgeMargin : Bytes := [0x20, 0xE2, 0x94, 0x82]        -- " │"
+def pmMargin : Bytes := [0x20, 0xC2, 0xB1, 0x20]          -- " ± "
+def vsBase : Bytes := [0x76, 0x73, 0x20, 0x62, 0x61, 0x73, 0x65]
+
+def superDigit (d : Nat) : Bytes :=
+  match d with
+  | 1 => [0xC2, 0xB9] | 2 => [0xC2, 0xB2] | 3 => [0xC2, 0xB3]
+  | 0 => [0xE2, 0x81, 0xB0]
+  | d => [0xE2, 0x81, UInt8.ofNat (0xB0 + d)]
+
+def superAux : Nat → Nat → Bytes → Bytes
+  | 0, _, acc => acc
+  | fuel + 1, i, acc => if i == 0 then acc else superAux fuel (i / 10) (superDigit (i % 10) ++ acc)
+
+/-- `superscript(i)` -/
+def superscript (i : Nat) : Bytes := if i == 0 then superDigit 0 else superAux 20 i []
+
+/-- the `o.Col(l).Span(r-l, node.Value, Center, LeftMargin(" │ "))` calls of one header level,
+then the right edge -/
+def levelOps (rEdge : Nat) (nodes : List Node) : List Op :=
+  [Op.row] ++ nodes.flatMap (fun n =>
+    [Op.col (textStartCol n.start),
+     Op.span (textStartCol (n.start + n.len) - textStartCol n.start) n.value [.center, .margin barMargin]])
+  ++ [Op.col rEdge, Op.span 1 [] [.margin edgeMargin]]
+
+/-- `for len(nodes) > 0 { … nodes = nextNodes }`; `fuel` bounds the depth of the tree -/
+def headerOps (rEdge : Nat) : Nat → List Node → List Op
+  | 0, _ => []
+  | fuel + 1, nodes =>
+    if nodes.isEmpty then [] else levelOps rEdge nodes ++ headerOps rEdge fuel (nodes.flatMap Node.children)
+
+def shrinkOps (a b : Nat) : List Op := (List.range (b - a)).map fun k => Op.setShrink (a + k) true
+
+/-- the column labels row -/
+def unitRowOps (rEdge ncols : Nat) (unit : Bytes) : List Op :=
+  [Op.row] ++ (List.range ncols).flatMap (fun i =>
+    let l := textStartCol i
+    let cur := if i > 0 then l + 6 else l + 3
+    [Op.col l, Op.span 3 unit [.center, .margin barMargin]] ++
+    (if i > 0 then [Op.span 3 vsBase [.left, .margin [0x20, 0x20]]] else []) ++
+    shrinkOps (l + 1) cur)
+  ++ [Op.col rEdge, Op.span 1 [] [.margin edgeMargin]]
+
+/-- the closure `warn`: footnote numbers of the messages (new messages are appended to the
+list), joined by a space, as one default cell -/
+def warnStep (st : List Bytes × List Bytes) (msg : Bytes) : List Bytes × List Bytes :=
+  match st.1.idxOf? msg with
+  | some i => (st.1, st.2 ++ [superscript (i + 1)])
+  | none => (st.1 ++ [msg], st.2 ++ [superscript (st.1.length + 1)])
+
+def joinSp : List Bytes → Bytes
+  | [] => []
+  | [a] => a
+  | a :: rest => a ++ [0x20] ++ joinSp rest
+
+def warnCell (wl : List Bytes) (msgs : List Bytes) : List Bytes × Op :=
+  let r := msgs.foldl warnStep (wl, [])
+  (r.1, Op.span 1 (joinSp r.2) [])
+
+/-- the calls for the cell of logical column `exp` of a measurement row -/
+def dataCellOps (wl : List Bytes) (exp : Nat) (c : DataCell) : List Bytes × List Op :=
+  let (wl1, w1) := warnCell wl c.warns
+  let base := [Op.col (textStartCol exp), Op.span 1 c.centerText [.right],
+               Op.span 1 c.range [.right, .margin pmMargin], w1]
+  match (if exp > 0 then c.delta else none) with
+  | some d =>
+    let (wl2, w2) := warnCell wl1 d.warns
+    (wl2, base ++ [Op.span 1 d.delta [.right], Op.span 1 ([0x28] ++ d.p ++ [0x29]) [], w2])
+  | none => (wl1, base)
+
+def dataColsOps : List Bytes → Nat → List (Option DataCell) → List Bytes × List Op
+  | wl, _, [] => (wl, [])
+  | wl, exp, none :: rest => dataColsOps wl (exp + 1) rest
+  | wl, exp, some c :: rest =>
+    let (wl1, o1) := dataCellOps wl exp c
+    let (wl2, o2) := dataColsOps wl1 (exp + 1) rest
+    (wl2, o1 ++ o2)
+
+def dataRowOps (wl : List Bytes) (row : Bytes × List (Option DataCell)) : List Bytes × List Op :=
+  let (wl1, o) := dataColsOps wl 0 row.2
+  (wl1, [Op.row, Op.span 1 row.1 []] ++ o)
+
+def dataRowsOps : List Bytes → List (Bytes × List (Option DataCell)) → List Bytes × List Op
+  | wl, [] => (wl, [])
+  | wl, r :: rest =>
+    let (wl1, o1) := dataRowOps wl r
+    let (wl2, o2) := dataRowsOps wl1 rest
+    (wl2, o1 ++ o2)
+
+def sumCellOps (wl : List Bytes) (exp : Nat) (s : SumCell) : List Bytes × List Op :=
+  let o1 := if s.hasSummary then [Op.col (textStartCol exp), Op.span 1 s.sumText [.right]] else []
+  let o2 := if exp > 0 then
+      [Op.col (textStartCol exp + 3), if s.hasRatio then Op.span 1 s.ratio [.right] else Op.span 1 [0x3F] []]
+    else []
+  let (wl1, w) := warnCell wl s.warns
+  (wl1, o1 ++ o2 ++ [Op.col (textStartCol (exp + 1) - 1), w])
+
+def sumColsOps : List Bytes → Nat → List (Option SumCell) → List Bytes × List Op
+  | wl, _, [] => (wl, [])
+  | wl, exp, none :: rest => sumColsOps wl (exp + 1) rest
+  | wl, exp, some c :: rest =>
+    let (wl1, o1) := sumCellOps wl exp c
+    let (wl2, o2) := sumColsOps wl1 (exp + 1) rest
+    (wl2, o1 ++ o2)
+
+/-- every call ToText makes on the texttab.Table, and the final warning list -/
+def toTextOps (v : View) : List Op × List Bytes :=
+  let rEdge := textStartCol (v.ncols + 1)
+  let top := newKeyHeader v.colKeys v.nfields
+  let hdr := headerOps rEdge (v.nfields + 1) top ++ unitRowOps rEdge v.ncols v.unit
+  let (wl1, body) := dataRowsOps [] v.rows
+  let (wl2, sum) :=
+    if v.rows.length > 1 then
+      let (wl2, o) := sumColsOps wl1 0 v.summary
+      (wl2, [Op.row, Op.span 1 v.summaryLabel []] ++ o)
+    else (wl1, [])
+  (hdr ++ body ++ sum, wl2)
+
+def footnoteLines (wl : List Bytes) : Bytes :=
+  ((List.range wl.length).zip wl).flatMap fun (i, msg) => superscript (i + 1) ++ [0x20] ++ msg ++ [0x0A]
+
+/-! ### ToCSV -/
+
+/-- `clearTo` -/
+def clearTo (row : List Bytes) (col : Nat) : List Bytes := row ++ List.replicate (col - row.length) []
+
+def natDigits (n : Nat) : Bytes := (toString n).toUTF8.toList
+
+def colNameAux : Nat → Nat → Bytes → Bytes
+  | 0, _, acc => acc
+  | fuel + 1, x, acc => if x == 0 then acc else colNameAux fuel (x / 26) (UInt8.ofNat (65 + x % 26) :: acc)
+
+/-- the spreadsheet-style column label ToCSV builds from `len(row)` (as written: 'A' + x%26 digits) -/
+def colName (x : Nat) : Bytes := if x == 0 then [65] else colNameAux 10 x []
+
+/-- the closure `warn` of ToCSV: one line per message -/
+def csvWarn (rowLen rowNo : Nat) (msgs : List Bytes) : List Bytes :=
+  msgs.map fun m => colName rowLen ++ natDigits rowNo ++ [0x3A, 0x20] ++ m ++ [0x0A]
+
+structure CsvSt where
+  recs : List (List Bytes) := []
+  warn : List Bytes := []        -- lines of the warnings stream
+  rowCount : Nat := 0
+
+def CsvSt.emit (st : CsvSt) (row : List Bytes) : CsvSt :=
+  { st with recs := st.recs ++ [row], rowCount := st.rowCount + 1 }
+
+def csvHeaderRow (keys : List (List Bytes)) (k : Nat) : List Bytes :=
+  ((List.range keys.length).zip keys).foldl (fun row (exp, key) =>
+    clearTo row (csvStartCol exp) ++ [key.getD k []]) []
+
+def csvUnitRow (ncols : Nat) (unit : Bytes) : List Bytes :=
+  (List.range ncols).foldl (fun row exp =>
+    clearTo row (csvStartCol exp) ++ [unit, [0x43, 0x49]] ++
+      (if exp > 0 then [vsBase, [0x50]] else [])) []
+
+/-- one measurement row: the record and the warning lines -/
+def csvDataCols (rowNo : Nat) : List Bytes → List Bytes → Nat → List (Option DataCell) → List Bytes × List Bytes
+  | row, w, _, [] => (row, w)
+  | row, w, exp, none :: rest => csvDataCols rowNo row w (exp + 1) rest
+  | row, w, exp, some c :: rest =>
+    let row1 := clearTo row (csvStartCol exp)
+    let w1 := w ++ csvWarn row1.length rowNo c.warns
+    let row2 := row1 ++ [c.centerCsv, c.range]
+    match (if exp > 0 then c.delta else none) with
+    | some d =>
+      csvDataCols rowNo (row2 ++ [d.delta, d.p]) (w1 ++ csvWarn row2.length rowNo d.warns) (exp + 1) rest
+    | none => csvDataCols rowNo row2 w1 (exp + 1) rest
+
+def csvSumCols (rowNo : Nat) : List Bytes → List Bytes → Nat → List (Option SumCell) → List Bytes × List Bytes
+  | row, w, _, [] => (row, w)
+  | row, w, exp, none :: rest => csvSumCols rowNo row w (exp + 1) rest
+  | row, w, exp, some s :: rest =>
+    let row1 := clearTo row (csvStartCol exp)
+    let w1 := w ++ csvWarn row1.length rowNo s.warns
+    let row2 := if s.hasSummary then row1 ++ [s.sumCsv] else row1
+    let row3 := if exp > 0 then clearTo row2 (csvStartCol exp + 2) ++ [if s.hasRatio then s.ratio else [0x3F]] else row2
+    csvSumCols rowNo row3 w1 (exp + 1) rest
+
+/-- `Table.ToCSV`: records, warning lines, rowCount -/
+def toCsv (v : View) (startRow : Nat) : CsvSt :=
+  let st : CsvSt := {}
+  let st := (List.range v.nfields).foldl (fun st k => st.emit (csvHeaderRow v.colKeys k)) st
+  let st := st.emit (csvUnitRow v.ncols v.unit)
+  let st := v.rows.foldl (fun (st : CsvSt) r =>
+    let (row, w) := csvDataCols (startRow + st.rowCount) [r.1] [] 0 r.2
+    { (st.emit row) with warn := st.warn ++ w }) st
+  let (row, w) := csvSumCols (startRow + st.rowCount) [v.summaryLabel] [] 0 v.summary
+  { (st.emit row) with warn := st.warn ++ w }
+
+/-! ### encoding/csv Writer -/
+
+def needsQuotes (f : Bytes) : Bool :=
+  if f.isEmpty then false
+  else if f == [0x5C, 0x2E] then true
+  else if f.any (fun c => c == 0x2C || c == 0x22 || c == 0x0D || c == 0x0A) then true
+  else Utf8.isSpace (Utf8.decodeRune f).1
+
+def quoteField (f : Bytes) : Bytes :=
+  [0x22] ++ f.flatMap (fun c => if c == 0x22 then [0x22, 0x22] else [c]) ++ [0x22]
+
+def csvLine (rcd : List Bytes) : Bytes :=
+  let fs := rcd.map fun f => if needsQuotes f then quoteField f else f
+  let rec join : List Bytes → Bytes
+    | [] => []
+    | [a] => a
+    | a :: rest => a ++ [0x2C] ++ join rest
+  join fs ++ [0x0A]
+
+def csvEncode (recs : List (List Bytes)) : Bytes := recs.flatMap csvLine
 
 end Tab.Render
